@@ -191,6 +191,20 @@ OobSet(prog, v, acc, idxs) ==   \* set of metas of out-of-bounds index accessors
          ELSE IF a.k = "tup" THEN OobSet(prog, v[a.i + 1], Tail(acc), idxs)
          ELSE OobSet(prog, v[IndexOfField(prog.structs[a.cty.name], a.f)], Tail(acc), idxs)
 
+(* the same for a group in which some index expressions failed: the bounds of an index are judged as soon  *)
+(* as that index expression (and the ones before it) completed - whether a later index expression or the  *)
+(* assigned value failed does not matter, their order relative to the bounds check is free                *)
+RECURSIVE OobSetP(_, _, _, _, _)
+OobSetP(prog, v, acc, idxs, oks) ==
+    IF acc = <<>> THEN {}
+    ELSE LET a == Head(acc) IN
+         IF a.k = "idx"
+         THEN (IF ~Head(oks) THEN {}
+               ELSE IF Head(idxs) >= Len(v) THEN {a.m}
+               ELSE OobSetP(prog, v[Head(idxs) + 1], Tail(acc), Tail(idxs), Tail(oks)))
+         ELSE IF a.k = "tup" THEN OobSetP(prog, v[a.i + 1], Tail(acc), idxs, oks)
+         ELSE OobSetP(prog, v[IndexOfField(prog.structs[a.cty.name], a.f)], Tail(acc), idxs, oks)
+
 -----------------------------------------------------------------------------
 (* the interpreter *)
 RECURSIVE Eval(_, _, _), EvalSeq(_, _, _, _), EvalGroup(_, _, _, _, _),
@@ -267,7 +281,7 @@ ExecStmt(prog, s, st) ==
                          idxOk == \A i \in 1..Len(idxAccs) : g.oks[i]
                          (* bounds are judged whenever the index expressions completed, whether or  *)
                          (* not the assigned value failed: the order between them is free           *)
-                         oob == IF idxOk THEN OobSet(prog, cur.v, s.acc, idxs) ELSE {}
+                         oob == OobSetP(prog, cur.v, s.acc, idxs, SubSeq(g.oks, 1, Len(idxAccs)))
                          oobPanics == IF oob = {} THEN {}
                                       ELSE {[r |-> REASON_OOB, m |-> x] : x \in oob \cup {s.m}}
                      IN  IF g.st.panic \cup oobPanics # {}
@@ -286,7 +300,7 @@ ExecStmt(prog, s, st) ==
             IN  IF g.st.oom \/ ~cur.found THEN R(Oom(g.st), Unit)
                 ELSE LET idxs == SubSeq(g.vs, 1, Len(idxAccs))
                          idxOk == \A i \in 1..Len(idxAccs) : g.oks[i]
-                         oob == IF idxOk THEN OobSet(prog, cur.v, s.acc, idxs) ELSE {}
+                         oob == OobSetP(prog, cur.v, s.acc, idxs, SubSeq(g.oks, 1, Len(idxAccs)))
                          oobPanics == IF oob = {} THEN {}
                                       ELSE {[r |-> REASON_OOB, m |-> x] : x \in oob \cup {s.m}}
                      IN  IF g.st.panic \cup oobPanics # {}
